@@ -9,7 +9,7 @@ use crate::visit::{first_outside, Slices};
 use serde_json::json;
 use tls_parser::*;
 
-pub const RULE: &str = "for each of 33 self-delimiting parsers (records, handshake, the three extension dispatchers and the 16 single-purpose extension parsers, SCT, DH/EC/signature): reference encodings (and their single length-field corruptions 0/1/true-1/true+1/max, and byte-level mutations) x suffixes {1 byte, 64 random bytes, another valid structure of the same kind, the same structure again}; oracle: value(p(b||x)) == value(p(b)) by PartialEq, remainder(p(b||x)) is the slice [consumed, end) of the same buffer by address, an accepted structure consumes exactly its declared length (computed by an independent calculator), outcome class equal whenever b already holds that declared length, every non-empty slice reachable from the value lies inside [input, input+consumed). Plus defragmenter histories (slices of unbuffered results inside the caller's record, of defragmented results inside the hooked buffer). distinct_nontrivial = distinct (parser, input kind, corruption kind, suffix kind, outcome class, length class) tuples";
+pub const RULE: &str = "for each of 33 self-delimiting parsers (records, handshake, the three extension dispatchers and the 16 single-purpose extension parsers, SCT, DH/EC/signature): reference encodings (and their single length-field corruptions 0/1/true-1/true+1/max, and byte-level mutations) x suffixes {1 byte, 64 random bytes, another valid structure of the same kind, the same structure again, more than 64 KiB, more than 4 GiB}; oracle: value(p(b||x)) == value(p(b)) by PartialEq, remainder(p(b||x)) is the slice [consumed, end) of the same buffer by address, an accepted structure consumes exactly its declared length (computed by an independent calculator), outcome class equal whenever b already holds that declared length, every non-empty slice reachable from the value lies inside [input, input+consumed). Plus defragmenter histories (slices of unbuffered results inside the caller's record, of defragmented results inside the hooked buffer). distinct_nontrivial = distinct (parser, input kind, corruption kind, suffix kind, outcome class, length class) tuples";
 pub const ASSUMPTIONS: &[&str] = &[
     "addresses of empty slices and empty remainders are not judged",
     "TlsExtension::PskExchangeModes(Vec<u8>) is an owned copy by design (not a slice)",
@@ -152,6 +152,48 @@ macro_rules! locality {
     }};
 }
 
+
+/// the same oracle with a suffix of more than 4 GiB of (lazily mapped, never touched) zero bytes:
+/// availability arithmetic in 32-bit types must not change the answer
+macro_rules! huge {
+    ($ctx:expr, $name:literal, $parser:expr, $b:expr, $big:expr) => {{
+        let b: &[u8] = $b;
+        let big: &mut Vec<u8> = $big;
+        for z in big[..4096].iter_mut() {
+            *z = 0;
+        }
+        big[..b.len()].copy_from_slice(b);
+        let r1 = $parser(b);
+        let o1 = classify(&r1);
+        // total lengths around 2^32 so that "bytes available after a 0/2/4/5/12/13-byte header" wraps to ~0 in 32 bits
+        for extra in [0usize, 2, 4, 5, 12, 13, 64, 4096] {
+            let whole = &big[..(1usize << 32) + extra];
+            let r2 = $parser(whole);
+            let o2 = classify(&r2);
+            $ctx.evals(2);
+            $ctx.count("huge.cases");
+            $ctx.shape(&($name, "4GiB-suffix", o1.class()));
+            let bad = match (&r1, &r2) {
+                (Ok((rem1, v1)), Ok((_, v2))) => {
+                    let consumed = b.len() - rem1.len();
+                    if v1 != v2 {
+                        Some("suffix-changes-value")
+                    } else if !o2.rem_is_suffix(whole, consumed) {
+                        Some("suffix-not-returned-as-remainder")
+                    } else {
+                        None
+                    }
+                }
+                (Ok(_), Err(_)) => Some("suffix-changes-outcome"),
+                _ => None,
+            };
+            if let Some(rule) = bad {
+                $ctx.violation(format!("c06:{}:{}:4GiB-suffix", $name, rule), json!({"parser": $name, "rule": rule, "b_hex": hex_short(b), "total_len": whole.len(), "with_suffix": o2.show(), "alone": o1.show()}));
+            }
+        }
+    }};
+}
+
 /// input variants of one reference encoding: itself, every single length-field corruption, mutations
 fn variants(r: &mut Rng, w: &W) -> Vec<(&'static str, &'static str, Vec<u8>)> {
     let mut out = vec![("valid", "", w.b.clone())];
@@ -200,6 +242,7 @@ pub fn run(ctx: &mut Ctx) {
     }
     ctx.floor("class-stability.judged", 100_000);
     ctx.floor("defrag.histories", 1_000);
+
 
     let n = ctx.tier.pick(10000, 100000);
 
@@ -413,6 +456,57 @@ pub fn run(ctx: &mut Ctx) {
             }
         }
     });
+
+
+    // one worker only: inputs longer than 4 GiB (zero pages are mapped lazily and never touched)
+    if !ctx.miri {
+        ctx.sweep("huge-suffix", 1, |ctx, _| {
+            let mut r = Rng::new(0x4_0000_0000);
+            let mut big = match gen::lazy_zeroed((1usize << 32) + 4096 + 64) {
+                Some(b) => b,
+                None => {
+                    ctx.note("4 GiB reservation refused by the platform: huge-suffix cases skipped".into());
+                    ctx.unjudged("huge-suffix-skipped");
+                    return;
+                }
+            };
+            ctx.floor("huge.cases", 100);
+            let rec = refenc::record(0x16, 0x0303, &refenc::msgs_payload(&gen::msg_list(&mut r, gen::TINY, 0x16)));
+            huge!(ctx, "parse_tls_plaintext", parse_tls_plaintext, &rec, &mut big);
+            huge!(ctx, "parse_tls_encrypted", parse_tls_encrypted, &rec, &mut big);
+            huge!(ctx, "parse_tls_raw_record", parse_tls_raw_record, &rec, &mut big);
+            let d = refenc::dtls_record(&gen::dtls_hdr(&mut r, 0x15), &[1, 0]);
+            huge!(ctx, "parse_dtls_plaintext_record", parse_dtls_plaintext_record, &d, &mut big);
+            for v in 0..17 {
+                let m = gen::hs_variant(&mut r, gen::TINY, v).to_bytes();
+                huge!(ctx, "parse_tls_message_handshake", parse_tls_message_handshake, &m, &mut big);
+            }
+            let m = gen::dtls_hs_whole(&mut r, gen::TINY).to_bytes();
+            huge!(ctx, "parse_dtls_message_handshake", parse_dtls_message_handshake, &m, &mut big);
+            for k in 0..gen::EXT_GENERATORS {
+                let e = gen::ext_variant(&mut r, gen::TINY, k).to_bytes();
+                huge!(ctx, "parse_tls_extension", parse_tls_extension, &e, &mut big);
+                huge!(ctx, "parse_tls_client_hello_extension", parse_tls_client_hello_extension, &e, &mut big);
+                huge!(ctx, "parse_tls_server_hello_extension", parse_tls_server_hello_extension, &e, &mut big);
+            }
+            let mut w = W::new();
+            refenc::sct_list(&mut w, &gen::sct_vec(&mut r, gen::TINY, 3));
+            huge!(ctx, "parse_ct_signed_certificate_timestamp_list", parse_ct_signed_certificate_timestamp_list, &w.b, &mut big);
+            let mut w = W::new();
+            gen::sct(&mut r, gen::TINY).enc(&mut w);
+            huge!(ctx, "parse_ct_signed_certificate_timestamp", parse_ct_signed_certificate_timestamp, &w.b, &mut big);
+            let mut w = W::new();
+            gen::dh(&mut r, gen::TINY).enc(&mut w);
+            huge!(ctx, "parse_dh_params", parse_dh_params, &w.b, &mut big);
+            let mut w = W::new();
+            gen::ecdh(&mut r).enc(&mut w);
+            huge!(ctx, "parse_ecdh_params", parse_ecdh_params, &w.b, &mut big);
+            let mut w = W::new();
+            gen::sig(&mut r, gen::TINY, true).enc(&mut w);
+            huge!(ctx, "parse_digitally_signed", parse_digitally_signed, &w.b, &mut big);
+            huge!(ctx, "parse_digitally_signed_old", parse_digitally_signed_old, &w.b[2..], &mut big);
+        });
+    }
 
     // defragmenter provenance: reuse the C07 lock-step runner (it checks that slices of unbuffered
     // results lie in the caller's record and slices of defragmented results in the hooked buffer)
